@@ -11,4 +11,4 @@ Separate Extraction
   Gen_GuardsShifter.Remove_guard Gen_GuardsShifter.InsertNogrow_guard
   Gen_GuardsArray.Insert_prefix Gen_GuardsArray.RemoveBack_guard Gen_GuardsArray.AddBackNogrowCrt_guard Gen_GuardsArray.index_guard
   Gen_GuardsSeg.SegInsert_guard Gen_GuardsSeg.SegRemoveBack_guard
-  Gen_ShiftLoops.ShiftRemove Gen_ShiftLoops.ShiftInsert Gen_IndexOf.pvIndexOf InsertGlue.gen_array_insert FactsProofs.gen_array_insert_f FactsProofs.gen_add_back_f.
+  Gen_ShiftLoops.ShiftRemove Gen_ShiftLoops.ShiftInsert Gen_IndexOf.pvIndexOf InsertGlue.gen_array_insert FactsProofs.gen_array_insert_f FactsProofs.gen_add_back_f FactsProofs.gen_add_back_move_f.
